@@ -325,7 +325,7 @@ def _concrete_key(key):
     if isinstance(key, VStr):
         t = z3.simplify(key.t)
         if z3.is_string_value(t):
-            return t.as_string()
+            return pystr(t)
     if isinstance(key, VInt):
         t = z3.simplify(key.t)
         if z3.is_int_value(t):
